@@ -40,7 +40,7 @@ TBufPut  == /\ Is("BufPut")
             /\ \/ E.coll /\ cz[E.w].id = E.id /\ cz[E.w].kind \in {"ok", "end"} /\ CProc(E.w)
                \/ ~E.coll /\ E.id = 0 /\ Same
             /\ Adv
-TOut     == /\ Is("Out")
+TOut     == /\ Is("Out") /\ E.own        \* own: the short-circuited failure is the request's own (its class, its id)
             /\ \/ p.b >= 2 /\ cz[E.w].id = E.id /\ cz[E.w].kind = E.kind /\ CProc(E.w)
                \/ p.b <= 1 /\ [id |-> E.id, kind |-> E.kind] \in outs /\ Same
             /\ Adv
